@@ -454,8 +454,13 @@ func VerifC12Step() {
 	// tags: T1, T10, T11 (as if T2..T9 had completed), so that one tag is a prefix of another
 	kinds := c12kindsByState[si]
 	// cfg selects (pending commands, server lines)
-	cfg := [][2]int{{2, 1}, {3, 1}, {1, 2}, {1, 3}}[nd.Param("cfg")]
+	cfg := [][2]int{{2, 1}, {3, 1}, {1, 2}, {1, 3}, {3, 1}}[nd.Param("cfg")]
 	slots := cfg[0]
+	if nd.Param("cfg") == 4 {
+		// three pending commands over a small alphabet (two commands of one kind behind
+		// an unrelated one: the order of the pending queue matters for routing)
+		kinds = [][]int{{k12Noop, k12Capability}, {k12Noop, k12List, k12Status}, {k12Noop, k12List, k12Search, k12FetchSeq}}[si]
+	}
 	for i := 0; i < slots; i++ {
 		ki := nd.Concretize(nd.Choice(len(kinds) + 1))
 		if ki == len(kinds) {
